@@ -36,6 +36,9 @@ def check(ctx):
                         'caches, exclusion sets)')
     ctx.floor('A11s', 2, 'value containers of a graph never shared between instances')
     ctx.floor('A5inv', 2, 'writers of state read by cached functions')
+    from ..rules import shared as _shm
+    _shm.check_class_level_containers(ctx)
+    ctx.floor('A11m', 3, 'mutable containers created in class bodies')
 
 
 from ..selftest import V  # noqa: E402
